@@ -210,3 +210,10 @@ class Context:
     all_refs: Optional[bool] = None
     ref_prefix: Optional[str] = None
     plugins: Sequence[BasePlugin] = ()
+    # dataclasses whose schema is being built / that refer to themselves
+    _in_progress: set[type] = field(
+        default_factory=set, init=False, repr=False, compare=False
+    )
+    _self_referenced: set[type] = field(
+        default_factory=set, init=False, repr=False, compare=False
+    )
